@@ -156,6 +156,8 @@ pub struct SimEnv {
     pub sampling_seed: u64,
     pub cores: Cores,
     pub buggify: bool,
+    /// decision-node visits after which the simulated run counts as hung (0 = unlimited)
+    pub step_budget: u64,
 }
 
 impl SimEnv {
@@ -165,10 +167,10 @@ impl SimEnv {
             6..=8 => format!("pct:{}:{}", r.usize_in(0, 3), 10u64.pow(r.usize_in(1, 5) as u32)),
             _ => "nopreempt".to_string(),
         };
-        SimEnv { policy, sched_seed: r.next(), sampling_seed: r.next(), cores: Cores::Real, buggify: r.coin(0.8) }
+        SimEnv { policy, sched_seed: r.next(), sampling_seed: r.next(), cores: Cores::Real, buggify: r.coin(0.8), step_budget: 0 }
     }
     pub fn to_json(&self) -> Value {
-        json!({"policy": self.policy, "sched_seed": self.sched_seed.to_string(), "sampling_seed": self.sampling_seed.to_string(), "cores": cores_json(&self.cores), "buggify": self.buggify})
+        json!({"policy": self.policy, "sched_seed": self.sched_seed.to_string(), "sampling_seed": self.sampling_seed.to_string(), "cores": cores_json(&self.cores), "buggify": self.buggify, "step_budget": self.step_budget.to_string()})
     }
     pub fn from_json(v: &Value) -> Result<SimEnv, String> {
         Ok(SimEnv {
@@ -177,6 +179,7 @@ impl SimEnv {
             sampling_seed: v["sampling_seed"].as_str().and_then(|s| s.parse().ok()).ok_or("sampling_seed")?,
             cores: cores_from(&v["cores"])?,
             buggify: v["buggify"].as_bool().unwrap_or(true),
+            step_budget: v["step_budget"].as_str().and_then(|s| s.parse().ok()).unwrap_or(0),
         })
     }
 }
@@ -238,6 +241,9 @@ pub fn run_simcli(bytes: &[u8], route: &Route, opts: &Opts, env: &SimEnv, extra_
         }
     }
     cmd.env("CFR_VERIF_BUGGIFY", if env.buggify { "1" } else { "0" });
+    if env.step_budget != 0 {
+        cmd.env("CFR_VERIF_STEP_BUDGET", env.step_budget.to_string());
+    }
     let report = scratch.0.join("report.json");
     cmd.env("CFR_VERIF_REPORT", &report);
     cmd.args(opts.args());
